@@ -257,7 +257,7 @@ func runReent3(c *hlib.Ctx, n int) {
 		lights := lights3(c, sh.col)
 		for j := 0; j < rays && i < n; j++ {
 			i++
-			r, class := genRay3(c, sh.col)
+			r, class := genRaySh3(c, sh)
 			passive := observe3(sh.col, r)
 			ndim := 3
 			if sh.approx {
@@ -462,7 +462,7 @@ func runScale3(c *hlib.Ctx, n int) {
 		}
 		for j := 0; j < 3 && i < n; j++ {
 			i++
-			r, class := genRay3(c, sh.col)
+			r, class := genRaySh3(c, sh)
 			if sh.proj2 != nil && c.Rng.Intn(3) == 0 {
 				// nearly vertical through a profile collider: a tiny xy component
 				r.Direction = model3d.XYZ(r.Direction.X*math.Ldexp(1, -40-c.Rng.Intn(20)), r.Direction.Y*math.Ldexp(1, -40-c.Rng.Intn(20)),
